@@ -46,7 +46,11 @@ impl GetIter {
     // Save oid for next request.
     // Return true if next request may be send or return false otherwise
     pub fn set_next_oid(&mut self, oid: &SnmpOid) -> bool {
-        if self.start_oid.as_borrowed().starts_with(oid) {
+        // Must stay within the subtree and move strictly forward,
+        // otherwise a misbehaving agent can make the walk loop forever
+        if self.start_oid.as_borrowed().starts_with(oid)
+            && oid.is_after(&self.next_oid.as_borrowed())
+        {
             self.next_oid.store(oid);
             true
         } else {
